@@ -7,6 +7,7 @@ package cluster
 import (
 	"context"
 	"encoding/json"
+	"fmt"
 	"math"
 	"sort"
 	"strconv"
@@ -71,10 +72,26 @@ func vec(m map[string]any, n int) []int64 {
 func projRes(r resourcetypes.Resources, ncore, nnuma, base int) Event {
 	p := asMap(r["cpumem"])
 	if p == nil {
-		return Event{"cpu": 0, "mem": 0, "cores": make([]int64, ncore), "numamem": make([]int64, nnuma), "missing": true}
+		return Event{"cpu": 0, "mem": 0, "cores": make([]int64, ncore), "numamem": make([]int64, nnuma), "numa": []int64{}, "missing": true}
+	}
+	// numa: for every core the NUMA node it is mapped to (-1: none) - part of a node's capacity
+	numa := make([]int64, ncore)
+	for i := range numa {
+		numa[i] = -1
+	}
+	for k, v := range asMap(p["numa"]) {
+		i, err := strconv.Atoi(k)
+		n, err2 := strconv.Atoi(fmt.Sprint(v))
+		if err != nil || err2 != nil || i < 0 {
+			continue
+		}
+		for len(numa) <= i {
+			numa = append(numa, -1)
+		}
+		numa[i] = int64(n)
 	}
 	return Event{"cpu": int64(math.Round(num(p["cpu"]) * float64(base))), "mem": int64(num(p["memory"])),
-		"cores": vec(asMap(p["cpu_map"]), ncore), "numamem": vec(asMap(p["numa_memory"]), nnuma), "missing": false}
+		"cores": vec(asMap(p["cpu_map"]), ncore), "numamem": vec(asMap(p["numa_memory"]), nnuma), "numa": numa, "missing": false}
 }
 
 // projWl: a workload's cpumem resources -> {cpu (pieces), mem, cores[], numamem[], numanode}
